@@ -32,7 +32,7 @@ def followup(stage, lines, model, checked, release, tier, rng):
             if not ans.startswith("ok "):
                 continue
             pk, sk = K.keys_of(ans)
-            msgs = [b"c", b"bc", R(40)]
+            msgs = [b"c", b"bc", R(40), R(32), R(64)]      # incl. messages that have the size of a SHA-256 / SHA-512 digest
             _st[s] = dict(pk=pk, sk=sk, sigs=[])
             for msg in msgs:
                 for (ctx, ph) in framings(rng):
